@@ -43,6 +43,9 @@ type Source struct {
 	Root  string            `json:"root,omitempty"`  // corpus: directory on the real disk
 	Files map[string]string `json:"files,omitempty"` // generated: path -> content
 	Depth int               `json:"max_depth,omitempty"`
+	// ExpectApps: for generated models, the application names the reference closure
+	// model predicts (independent of any earlier compilation in this process).
+	ExpectApps []string `json:"expect_apps,omitempty"`
 }
 
 type noRetriever struct{}
@@ -211,6 +214,25 @@ func generated(seed uint64) *Source {
 			src.Files[f.Path] = f.Text
 		}
 	}
+	e := importsim.Model(w)
+	ok := !e.Conflict
+	for _, i := range e.Included {
+		f := w.Files[i]
+		switch {
+		case f.Remote || !(f.Kind == "sysl" || f.Kind == "pbjson" || f.Kind == "textpb"):
+			ok = false // needs the retriever or a slow importer: no expectation
+		case f.Kind == "sysl":
+			src.ExpectApps = append(src.ExpectApps, fmt.Sprintf("F%d", i))
+		default:
+			src.ExpectApps = append(src.ExpectApps, fmt.Sprintf("Foreign%d", i))
+		}
+	}
+	if ok {
+		src.ExpectApps = append(src.ExpectApps, "Shared")
+		sort.Strings(src.ExpectApps)
+	} else {
+		src.ExpectApps = nil
+	}
 	return src
 }
 
@@ -230,6 +252,14 @@ func check(pl *Plan, o *runOut, seq map[*Source]string, cnt core.Counters) []V {
 	}
 	for i, src := range pl.Sources {
 		want, got := seq[src], o.Results[i]
+		if src.ExpectApps != nil {
+			cnt.Inc("results_checked_against_closure_model")
+			if apps, ok := appsOf(got); !ok || strings.Join(apps, ",") != strings.Join(src.ExpectApps, ",") {
+				vs = append(vs, V{"result-differs-from-model", fmt.Sprintf("task %d (%s): applications %v, the closure model of this generated source says %v (%s)",
+					i, src.Name, apps, src.ExpectApps, core.Trunc(core.OneLine(got), 160))})
+				continue
+			}
+		}
 		if got == want {
 			continue
 		}
@@ -244,6 +274,32 @@ func check(pl *Plan, o *runOut, seq map[*Source]string, cnt core.Counters) []V {
 		vs = append(vs, V{"lexer-state-leak", fmt.Sprintf("%d lexer state(s) left in the process-global map after all compilations returned", o.LexerLeft)})
 	}
 	return vs
+}
+
+// appsOf extracts the application names from a serialised result.
+func appsOf(res string) ([]string, bool) {
+	if !strings.HasPrefix(res, "OK\n") {
+		return nil, false
+	}
+	j := res[3:]
+	if k := strings.Index(j, "\n----\n"); k >= 0 {
+		j = j[:k]
+	}
+	var m struct {
+		Apps map[string]json.RawMessage `json:"apps"`
+	}
+	if err := json.Unmarshal([]byte(j), &m); err != nil {
+		return nil, false
+	}
+	var out []string
+	for k := range m.Apps {
+		if i := strings.LastIndex(k, "."); i >= 0 {
+			k = k[i+1:]
+		}
+		out = append(out, k)
+	}
+	sort.Strings(out)
+	return out, true
 }
 
 func firstDiff(a, b string) string {
@@ -310,6 +366,19 @@ func worker(t *testing.T, c core.Cfg) {
 	}
 	distinct := map[uint64]bool{}
 	classSeen := map[string]bool{}
+	finished := false
+	defer func() {
+		// also runs when the testing package ends the goroutine (it fails a test in which
+		// the race detector reported, via runtime.Goexit): the partial must still be written
+		if !finished {
+			part.Counters.Inc("worker_ended_early_by_testing_package")
+			for h := range distinct {
+				part.Distinct = append(part.Distinct, h)
+			}
+			part.WallS = time.Since(start).Seconds()
+			_ = core.WriteJSON(c.PartPath(c.Worker), part)
+		}
+	}()
 	for g := c.Worker; time.Now().Before(deadline) && len(part.Violations) < 6; g += nw {
 		seed := core.Derive(c.Seed, "C07", c.Mode, "plan", fmt.Sprint(g))
 		r := core.NewRand(seed)
@@ -329,19 +398,36 @@ func worker(t *testing.T, c core.Cfg) {
 				pool = append(pool, all[r.Intn(len(all))])
 			}
 		}
-		var kept []*Source
-		for _, s := range pool {
-			if strings.HasPrefix(seqOf(s), "PANIC") {
-				part.Counters.Inc("sequential_panics") // C01's business; still compared
+		// Cooperative mode compiles every source alone first (the reference result, and
+		// slow sources are weeded out).  Race mode does it the other way round: shared
+		// caches that are filled lazily (ANTLR's DFA) must be cold when the tasks run in
+		// parallel, or the racing writes never happen.
+		if !race {
+			var kept []*Source
+			for _, s := range pool {
+				if strings.HasPrefix(seqOf(s), "PANIC") {
+					part.Counters.Inc("sequential_panics") // C01's business; still compared
+				}
+				if !slow[s] {
+					kept = append(kept, s)
+				}
 			}
-			if !slow[s] {
-				kept = append(kept, s)
+			if len(kept) < 2 {
+				continue
 			}
+			pool, k = kept, len(kept)
+		} else {
+			var kept []*Source
+			for _, s := range pool {
+				if !slow[s] && !strings.Contains(s.Name, "openapi") && !strings.Contains(s.Name, "swagger") {
+					kept = append(kept, s)
+				}
+			}
+			if len(kept) < 2 {
+				continue
+			}
+			pool, k = kept, len(kept)
 		}
-		if len(kept) < 2 {
-			continue
-		}
-		pool, k = kept, len(kept)
 		pl.Sources = pool
 		if race {
 			pl.Policy = "waves"
@@ -355,6 +441,11 @@ func worker(t *testing.T, c core.Cfg) {
 			}
 		}
 		o := runPlan(t, pl, makePicker(pl, r.Fork()))
+		if race {
+			for _, s := range pool {
+				seqOf(s)
+			}
+		}
 		part.Evaluations++
 		part.Cases++
 		part.Steps += int64(o.Steps)
@@ -383,8 +474,11 @@ func worker(t *testing.T, c core.Cfg) {
 				"scheduler_steps": o.Steps, "context_switches": o.Switches, "first_picks": o.Picks[:min(12, len(o.Picks))]})
 			part.Samples = append(part.Samples, b)
 		}
-		// determinism twin (cooperative mode): replay the trace, expect identical results
-		if !race && part.Evaluations%8 == 1 {
+		vsNow := check(pl, o, seq, part.Counters)
+		// determinism twin (cooperative mode): replay the trace, expect identical results.
+		// Skipped when the run already shows a violation: a tree that leaks state between
+		// compilations is not replayable, and that is the tree's fault, not the harness's.
+		if !race && part.Evaluations%8 == 1 && len(vsNow) == 0 {
 			tw := runPlan(t, pl, &core.Trace{Keys: o.Picks})
 			if tw.Sched.Diverged != "" {
 				part.HarnessErr = "twin diverged: " + tw.Sched.Diverged
@@ -396,7 +490,7 @@ func worker(t *testing.T, c core.Cfg) {
 			}
 			part.Twins++
 		}
-		for _, v := range check(pl, o, seq, part.Counters) {
+		for _, v := range vsNow {
 			part.Counters.Inc("raw_violation_" + v.Class)
 			if classSeen[v.Class] {
 				continue
@@ -417,10 +511,13 @@ func worker(t *testing.T, c core.Cfg) {
 					}
 				}
 				if okc < 2 {
-					part.HarnessErr = fmt.Sprintf("violation %s of plan %d did not reproduce from its trace (%d/2): %s", v.Class, seed, okc, v.Detail)
-					break
+					// the observation itself (a result that differs from the sequential one)
+					// does not depend on the schedule being replayable; report it, and say so
+					v.Detail += fmt.Sprintf(" [reproduced %d/2 times from its trace: the tree keeps hidden state between compilations]", okc)
+					part.Counters.Inc("violations_not_exactly_replayable")
+				} else {
+					rp = *minimise(t, &rp, v.Class, seq)
 				}
-				rp = *minimise(t, &rp, v.Class, seq)
 			}
 			p := filepath.Join(core.ReplayDir(), fmt.Sprintf("C07-%s-%s-%d.json", c.Mode, core.SafeName(v.Class), seed))
 			_ = core.WriteJSON(p, ReplayFile{Property: "C07", Engine: "compilesim", Mode: c.Mode, Class: v.Class, Detail: v.Detail, Plan: &rp})
@@ -434,6 +531,7 @@ func worker(t *testing.T, c core.Cfg) {
 		part.Distinct = append(part.Distinct, h)
 	}
 	part.WallS = time.Since(start).Seconds()
+	finished = true
 	if err := core.WriteJSON(c.PartPath(c.Worker), part); err != nil {
 		core.Fatal2("write partial: %v", err)
 	}
